@@ -29,7 +29,7 @@ def run(ctx):
     fam += [bs["c_destroy_probe"], bs["c_destroy_probe_fallback"]]
     for workers in (2, 3) if not quick else (2,):
         out = ctx.path(f"runs_w{workers}.ndjson")
-        args = {"groups": ["SCHED"], "workers": workers, "max_runs": 12 if quick else 600, "seed": ctx.seed, "policy": "pct",
+        args = {"groups": ["SCHED"], "workers": workers, "max_runs": ctx.n(12, 600), "seed": ctx.seed, "policy": "pct",
                 "out": out, "scenarios": fam}
         r = ctx.vh("sched", args, timeout=3000)
         se.report(ctx, r, args, "C08", also=("C01", "C02", "C10"))
@@ -39,13 +39,13 @@ def run(ctx):
     args = {"groups": ["SCHED"], "workers": 1, "max_runs": 2, "seed": ctx.seed, "out": ctx.path("seq.ndjson"), "scenarios": fam, "force_sequential": True}
     r = ctx.vh("sched", args, timeout=3000)
     se.report(ctx, r, args, "C08", also=("C01", "C02", "C10"))
-    r = ctx.vh("matrix", {"scenarios": fam, "repeat": 1 if quick else 5}, timeout=3000)
+    r = ctx.vh("matrix", {"scenarios": fam, "repeat": ctx.n(1, 5)}, timeout=3000)
     for v in r.get("violations", []):
         ctx.violation("C06: " + v["what"], {"kind": "matrix", "scenario": v["scenario"], "configs": v["configs"]})
     ctx.evaluations += r.get("runs", 0)
     # the committed cache serves the sequential path and the sequential replay: the same destroy / create / re-create
     # histories as single transactions against ParallelState and revm State side by side (readable values after every step)
-    h = ctx.vh("statehist", {"max_runs": 400 if quick else 20000, "seed": ctx.seed}, timeout=3000)
+    h = ctx.vh("statehist", {"max_runs": ctx.n(400, 20000), "seed": ctx.seed}, timeout=3000)
     ctx.evaluations += h["runs"]
     for v in h["violations"]:
         ctx.violation(f"the committed cache differs from revm State ({v['class']}): {v['what']}",
